@@ -340,6 +340,15 @@ func isStrVal(v value) bool {
 }
 
 func (fr *frame) binop(op token.Token, t types.Type, x, y value) value {
+	_, xf := x.(symFloat)
+	_, yf := y.(symFloat)
+	if xf || yf {
+		switch op {
+		case token.ADD, token.SUB, token.MUL, token.QUO:
+			return symFloat{"opaque"}
+		}
+		panic(unsupported("comparison of an opaque (symbolic) float"))
+	}
 	if isSym(x) || isSym(y) {
 		return fr.i.symBinop(fr, op, x, y)
 	}
